@@ -282,9 +282,13 @@ func init() {
 			r.Require("delivered_in_body", 50)
 			r.Require("deregistered_requests_checked", 100)
 			r.Require("reregistered_requests_checked", 100)
+			r.Require("tenant_sequence_requests", 100)
 			return []core.Workload{
 				{Name: "logout_requests", N: c.Pick(1200, 12000), Fn: c13Case},
 				{Name: "registration_changes", N: c.Pick(150, 1500), Fn: c13Registration},
+				{Name: "tenant_sequences", N: c.Pick(120, 1200), Fn: func(r *core.Run, idx int, rng *rand.Rand) {
+					tenantSequence(r, "tenant_sequences", idx, rng, true, false)
+				}},
 			}
 		},
 	})
